@@ -217,17 +217,17 @@ func (r *rewriter) method(c *ast.CallExpr) (pkg, typ, meth string, recv ast.Expr
 }
 
 var osFuncs = map[string]string{
-	"ReadFile":  "FSReadFile",
-	"WriteFile": "FSWriteFile",
-	"Stat":      "FSStat",
-	"Create":    "FSCreate",
-	"MkdirAll":  "FSMkdirAll",
+	"ReadFile":   "FSReadFile",
+	"WriteFile":  "FSWriteFile",
+	"Stat":       "FSStat",
+	"Create":     "FSCreate",
+	"MkdirAll":   "FSMkdirAll",
 	"OpenFile":   "FSOpenFile",
 	"Open":       "FSOpen",
 	"CreateTemp": "FSCreateTemp",
 	"Rename":     "FSRename",
 	"Remove":     "FSRemove",
-	"Exit":      "Exit",
+	"Exit":       "Exit",
 }
 
 // methods of *os.File that are redirected (hand-written write paths)
